@@ -4,8 +4,10 @@
    model refutes the property the witness is pinned here (closed by computation) together with the class predicate.
    Finding classes ([Known_C17] = [Known_ty] on the type, closed under nesting, or a BitVec with excess bytes in
    the value): CHOICE with a NULL alternative (F17-1), CHOICE with a SEQUENCE OF alternative (F17-2),
-   SEQUENCE OF SEQUENCE OF (F17-3, F17-4), BitVec with excess bytes (F17-5) and SEQUENCE OF NULL (F17-7, constructor
+   SEQUENCE OF SEQUENCE OF (F17-3, F17-4), BitVec with excess bytes (F17-5), SEQUENCE OF NULL (F17-7, constructor
    [K_list_null] of [Known_ty]; witness [C17_refuted_list_of_null]).
+   Repaired in /repo 4788e65 and no longer a class: an extensible INTEGER (64-bit Rust type) used to be cast to the
+   32-bit format selected by its root bounds; it now always gets the 64-bit format ([C17_extensible_int_fixed]).
    Not a C17 violation: the property is about one value per writer.  A ProtobufWriter that is reused after a
    top-level CHOICE keeps is_root = false and wraps the next value as field 2; this is documented by the Example
    [C17_writer_reuse_after_choice] only. *)
@@ -25,7 +27,8 @@ Theorem C17_tag_roundtrip : forall field f tail, field < 2 ^ 29 ->
   read_tag (write_tag field f ++ tail) = Ok (field, f, tail).
 Proof. exact tag_roundtrip. Qed.
 
-(* every integer kind (the writer's choice among uint32/uint64/sint32/sint64 and all `as` casts) *)
+(* every integer kind (the writer's choice among uint32/uint64/sint32/sint64 and all `as` casts), including the
+   64-bit Rust types of extensible INTEGERs ([KExt signed MIN MAX]): every value of the Rust type *)
 Theorem C17_number_roundtrip : forall k z, in_kind k z = true ->
   number_read k (number_bytes k z) = Ok z.
 Proof. exact number_roundtrip. Qed.
@@ -178,6 +181,31 @@ Proof.
   vm_compute. repeat split; reflexivity.
 Qed.
 
+(* repaired in /repo 4788e65: an INTEGER with an extension marker is a u64 / i64 in Rust; write_number / read_number
+   now take a 32-bit format only for `!C::EXTENSIBLE`, so every KExt kind gets the 64-bit format of its signedness and
+   every value of the 64-bit type round-trips (it used to be cast `as i32` / `as u32`: 2^31 came back as -2^31) *)
+Definition t_xs5 := TSeq [(false, TInt (KExt true (Some (-5)%Z) (Some 5%Z)))].
+Definition t_xu255 := TSeq [(false, TInt (KExt false (Some 0%Z) (Some 255%Z)))].
+Theorem C17_extensible_int_fixed :
+  (forall sg mn mx z, in_kind (KExt sg mn mx) z = true ->
+     (kind_sel (KExt sg mn mx) = PUInt64 \/ kind_sel (KExt sg mn mx) = PSInt64) /\
+     number_read (KExt sg mn mx) (number_bytes (KExt sg mn mx) z) = Ok z) /\
+  wf_pty t_xs5 /\ wf_pval t_xs5 (VSeq [VInt 2147483648]) /\ ~ Known_C17 t_xs5 (VSeq [VInt 2147483648]) /\
+  pwrite_vec dev_mode t_xs5 (VSeq [VInt 2147483648]) = Ok [8; 128; 128; 128; 128; 16] /\
+  pread dev_mode t_xs5 [8; 128; 128; 128; 128; 16] = Ok (VSeq [VInt 2147483648]) /\
+  pwrite_vec dev_mode t_xs5 (VSeq [VInt (-9223372036854775808)]) = Ok [8; 255; 255; 255; 255; 255; 255; 255; 255; 255; 1] /\
+  pread dev_mode t_xs5 [8; 255; 255; 255; 255; 255; 255; 255; 255; 255; 1] = Ok (VSeq [VInt (-9223372036854775808)]) /\
+  pwrite_vec dev_mode t_xu255 (VSeq [VInt 4294967296]) = Ok [8; 128; 128; 128; 128; 16] /\
+  pread dev_mode t_xu255 [8; 128; 128; 128; 128; 16] = Ok (VSeq [VInt 4294967296]) /\
+  pread dev_mode t_xu255 [8; 255; 255; 255; 255; 255; 255; 255; 255; 255; 1] = Ok (VSeq [VInt 18446744073709551615]).
+Proof.
+  split.
+  - intros sg mn mx z H. split; [apply ext_sel64|apply number_roundtrip, H].
+  - split; [split; reflexivity|]. split; [reflexivity|]. split.
+    + intros [K|E]; [apply known_not_good in K; vm_compute in K; discriminate K|vm_compute in E; discriminate E].
+    + vm_compute. repeat split; reflexivity.
+Qed.
+
 (* documentation only, not a C17 violation (C17 speaks about one value per writer): the writer is left with
    is_root = false after a top-level CHOICE (write_choice takes the flag and never restores it, unlike
    write_set_or_sequence), so a second value written with the same writer is wrapped as field 2 *)
@@ -267,6 +295,7 @@ Print Assumptions C17_roundtrip.
 Print Assumptions C17_backends_agree.
 Print Assumptions C17_known_classes.
 Print Assumptions C17_refuted_list_of_null.
+Print Assumptions C17_extensible_int_fixed.
 Print Assumptions C17_refuted_choice_null.
 Print Assumptions C17_refuted_choice_list.
 Print Assumptions C17_refuted_nested_list.
